@@ -138,19 +138,19 @@ Proof.
   - intros id' Hne. simpl. destruct (Z.eqb_spec id' id); [contradiction|reflexivity].
 Qed.
 
-(* shutdown: what the code does, including the pool being written under the caller's id *)
+(* shutdown: only the owner or the delegate wallet; the provider's own pool becomes sp_kill of
+   itself with half the slash (dead, slashed once) or is deleted together with an empty provider;
+   every other key is untouched *)
 Lemma pv_shutdown_exact : forall owner slash t id caller st st',
   pv_shutdown owner slash t id caller st = Some st' ->
   exists p sp, pv_provs st id = Some p /\ pv_type p = t /\ pv_pools st t id = Some sp /\
     ((pv_killed p || pv_shut p = true /\ st' = st) \/
      (pv_killed p || pv_shut p = false /\ (caller = owner \/ caller = ss_wallet (sp_set sp)) /\
       exists sp', sp_kill sp (f64_div slash (f64_of_Z 2)) = Some sp' /\
+        (forall t' id', (t', id') <> (t, id) -> pv_pools st' t' id' = pv_pools st t' id') /\
         (forall id', id' <> id -> pv_provs st' id' = pv_provs st id') /\
-        (forall t' id', (t', id') <> (t, id) -> (t', id') <> (t, caller) -> pv_pools st' t' id' = pv_pools st t' id') /\
-        ((pv_deletable t p sp' = false /\ pv_pools st' t caller = Some sp' /\ pv_provs st' id = Some (pv_mark_shut p) /\
-          (caller <> id -> pv_pools st' t id = Some sp)) \/
-         (pv_deletable t p sp' = true /\ pv_pools st' t id = None /\ pv_provs st' id = None /\
-          (caller <> id -> pv_pools st' t caller = Some sp'))))).
+        ((pv_deletable t p sp' = false /\ pv_pools st' t id = Some sp' /\ pv_provs st' id = Some (pv_mark_shut p)) \/
+         (pv_deletable t p sp' = true /\ pv_pools st' t id = None /\ pv_provs st' id = None)))).
 Proof.
   unfold pv_shutdown. intros owner slash t id caller st st' H.
   destruct (pv_provs st id) as [p|] eqn:Hp; [|discriminate].
@@ -160,29 +160,22 @@ Proof.
   destruct (pv_killed p || pv_shut p) eqn:Hd.
   - left. split; [reflexivity|]. destruct (t =? pv_blobber); inversion H; reflexivity.
   - right. split; [reflexivity|].
-    destruct (sp_kill sp (f64_div slash (f64_of_Z 2))) as [sp'|] eqn:Hk; [|discriminate].
-    pose proof (sp_kill_props _ _ _ Hk) as (_ & Hset & _).
-    destruct ((caller =? owner) || (caller =? ss_wallet (sp_set sp'))) eqn:Hauth; [|discriminate]. cbn [negb] in H.
+    destruct ((caller =? owner) || (caller =? ss_wallet (sp_set sp))) eqn:Hauth; [|discriminate]. cbn [negb] in H.
     split.
-    { apply orb_true_iff in Hauth. destruct Hauth as [A|A]; apply Z.eqb_eq in A; [left; exact A|right; rewrite <- Hset; exact A]. }
+    { apply orb_true_iff in Hauth. destruct Hauth as [A|A]; apply Z.eqb_eq in A; [left|right]; exact A. }
+    destruct (sp_kill sp (f64_div slash (f64_of_Z 2))) as [sp'|] eqn:Hk; [|discriminate].
     exists sp'. split; [reflexivity|].
     destruct (pv_deletable t p sp') eqn:Hdel; inversion H; subst; clear H.
-    + split; [intros id' Hne; simpl; destruct (Z.eqb_spec id' id); [contradiction|reflexivity]|].
-      split.
-      { intros t' id' N1 N2. simpl.
-        destruct (Z.eqb_spec t' (pv_type p)); destruct (Z.eqb_spec id' id); simpl; try (subst; contradiction);
-          destruct (Z.eqb_spec id' caller); simpl; try reflexivity; subst; contradiction. }
-      right. split; [reflexivity|]. split; [simpl; rewrite !Z.eqb_refl; reflexivity|].
-      split; [simpl; rewrite Z.eqb_refl; reflexivity|].
-      intros Hne. simpl. rewrite Z.eqb_refl. simpl. destruct (Z.eqb_spec caller id); [contradiction|].
-      rewrite Z.eqb_refl. reflexivity.
-    + split; [intros id' Hne; simpl; destruct (Z.eqb_spec id' id); [contradiction|reflexivity]|].
-      split.
-      { intros t' id' N1 N2. simpl.
-        destruct (Z.eqb_spec t' (pv_type p)); destruct (Z.eqb_spec id' caller); simpl; try reflexivity. subst. contradiction. }
-      left. split; [reflexivity|]. split; [simpl; rewrite !Z.eqb_refl; reflexivity|].
-      split; [simpl; rewrite Z.eqb_refl; reflexivity|].
-      intros Hne. simpl. rewrite Z.eqb_refl. simpl. destruct (Z.eqb_spec id caller); [subst; contradiction|]. exact Hsp.
+    + split; [intros t' id' Hne; rewrite pv_set_pool_other by assumption; simpl;
+              change (pv_pools (pv_set_pool st (pv_type p) id (Some sp')) t' id' = pv_pools st t' id');
+              apply pv_set_pool_other; assumption|].
+      split; [intros id' Hne; simpl; destruct (Z.eqb_spec id' id); [contradiction|reflexivity]|].
+      right. split; [reflexivity|]. split; [apply pv_set_pool_same|simpl; rewrite Z.eqb_refl; reflexivity].
+    + split; [intros t' id' Hne; simpl;
+              change (pv_pools (pv_set_pool st (pv_type p) id (Some sp')) t' id' = pv_pools st t' id');
+              apply pv_set_pool_other; assumption|].
+      split; [intros id' Hne; simpl; destruct (Z.eqb_spec id' id); [contradiction|reflexivity]|].
+      left. split; [reflexivity|]. split; [simpl; rewrite !Z.eqb_refl; reflexivity|simpl; rewrite Z.eqb_refl; reflexivity].
 Qed.
 
 (* unauthorised callers change nothing: the transaction fails *)
@@ -211,12 +204,25 @@ Qed.
 
 (* ---- the shutdown statement "exactly that provider's pool is dead, no other record" ---- *)
 
-Definition pv_shutdown_statement : Prop :=
-  forall owner slash t id caller st st' p sp,
+Lemma pv_shutdown_statement : forall owner slash t id caller st st' p sp,
     pv_provs st id = Some p -> pv_pools st t id = Some sp -> pv_killed p || pv_shut p = false ->
     pv_shutdown owner slash t id caller st = Some st' ->
     (match pv_pools st' t id with Some sp1 => sp_killed sp1 = true | None => True end) /\
-    (forall t' id', (t', id') <> (t, id) -> pv_pools st' t' id' = pv_pools st t' id').
+    (forall t' id', (t', id') <> (t, id) -> pv_pools st' t' id' = pv_pools st t' id') /\
+    (forall id', id' <> id -> pv_provs st' id' = pv_provs st id') /\
+    (exists sp', sp_kill sp (f64_div slash (f64_of_Z 2)) = Some sp' /\
+       (pv_pools st' t id = Some sp' \/ (pv_deletable t p sp' = true /\ pv_pools st' t id = None /\ pv_provs st' id = None))).
+Proof.
+  intros owner slash t id caller st st' p sp Hp Hsp Hd H.
+  apply pv_shutdown_exact in H. destruct H as (p' & sp0 & Hp' & _ & Hsp' & [[Hd' _]|[_ [_ (sp' & Hk & Hoth & Hpr & Hcase)]]]);
+    rewrite Hp in Hp'; rewrite Hsp in Hsp'; inversion Hp'; inversion Hsp'; subst; [congruence|].
+  pose proof (sp_kill_props _ _ _ Hk) as (Hkd & _).
+  destruct Hcase as [(Hdel & Hown & Hpv)|(Hdel & Hnone & Hpn)].
+  - split; [rewrite Hown; exact Hkd|]. split; [assumption|]. split; [assumption|].
+    exists sp'. split; [assumption|left; assumption].
+  - split; [rewrite Hnone; exact I|]. split; [assumption|]. split; [assumption|].
+    exists sp'. split; [assumption|right; repeat split; assumption].
+Qed.
 
 Definition pv_witness_state : pv_state :=
   {| pv_provs := fun i => if i =? 10 then Some {| pv_type := pv_blobber; pv_killed := false; pv_shut := false; pv_saved := 5 |} else None;
@@ -225,36 +231,3 @@ Definition pv_witness_state : pv_state :=
                                          sp_set := {| ss_wallet := 11; ss_maxdel := 10; ss_minstake := 0; ss_charge := f64_zero |};
                                          sp_killed := false |}
                             else None |}.
-
-(* shutdown by the delegate wallet (id 11) of blobber 10: the blobber's pool stays alive and
-   unslashed, a dead slashed copy appears under "blobber:stakepool:11" *)
-Lemma pv_shutdown_statement_refuted : ~ pv_shutdown_statement.
-Proof.
-  intros H.
-  destruct (pv_shutdown 9000 (f64_of_bits 4602678819172646912) pv_blobber 10 11 pv_witness_state) as [st'|] eqn:E.
-  - specialize (H 9000 (f64_of_bits 4602678819172646912) pv_blobber 10 11 pv_witness_state st' _ _ eq_refl eq_refl eq_refl E).
-    destruct H as [H1 _]. vm_compute in E. inversion E; subst; clear E. vm_compute in H1. discriminate.
-  - vm_compute in E. discriminate.
-Qed.
-
-(* outside the trigger (the caller's id is the provider's id) the statement holds *)
-Lemma pv_shutdown_statement_partial :
-  forall owner slash t id st st' p sp,
-    pv_provs st id = Some p -> pv_pools st t id = Some sp -> pv_killed p || pv_shut p = false ->
-    pv_shutdown owner slash t id id st = Some st' ->
-    (match pv_pools st' t id with Some sp1 => sp_killed sp1 = true | None => True end) /\
-    (forall t' id', (t', id') <> (t, id) -> pv_pools st' t' id' = pv_pools st t' id') /\
-    (forall id', id' <> id -> pv_provs st' id' = pv_provs st id') /\
-    (exists sp', sp_kill sp (f64_div slash (f64_of_Z 2)) = Some sp' /\
-       (pv_pools st' t id = Some sp' \/ (pv_deletable t p sp' = true /\ pv_pools st' t id = None /\ pv_provs st' id = None))).
-Proof.
-  intros owner slash t id st st' p sp Hp Hsp Hd H.
-  apply pv_shutdown_exact in H. destruct H as (p' & sp0 & Hp' & _ & Hsp' & [[Hd' _]|[_ [_ (sp' & Hk & Hpr & Hoth & Hcase)]]]);
-    rewrite Hp in Hp'; rewrite Hsp in Hsp'; inversion Hp'; inversion Hsp'; subst; [congruence|].
-  pose proof (sp_kill_props _ _ _ Hk) as (Hkd & _).
-  destruct Hcase as [(Hdel & Hown & Hpv & _)|(Hdel & Hnone & Hpn & _)].
-  - split; [rewrite Hown; exact Hkd|]. split; [intros t' id' N; apply Hoth; assumption|].
-    split; [assumption|]. exists sp'. split; [assumption|left; assumption].
-  - split; [rewrite Hnone; exact I|]. split; [intros t' id' N; apply Hoth; assumption|].
-    split; [assumption|]. exists sp'. split; [assumption|right; repeat split; assumption].
-Qed.
